@@ -29,6 +29,7 @@ pub static SCENARIOS: &[ScenarioDef] = &[
     scen!("seq/wcell", wcell, "C09: every short operation sequence on one AtomicWeak against a (pointer, tag) cell"),
     scen!("seq/latency", latency, "C06: epochs needed to reclaim a structure of n nodes"),
     scen!("seq/cascade-decision", cascade_decision, "C12: the immediate-reclamation decision against true stamp ages"),
+    scen!("seq/latency-busy", latency_busy, "C06: a comb whose held side leaves are re-stamped in every round; the spine must go in constant epochs"),
     scen!("seq/conv", conv, "every owner-creating conversion (From impls, AtomicRc::new/take, AtomicWeak::get_mut) x release order x round placement"),
 ];
 
@@ -650,6 +651,9 @@ fn cell(p: &Params) -> Program {
         .into_iter()
         .map(|i| cell_alphabet()[i])
         .collect();
+    // epochs that pass between the preparation of the expected values and the sequence itself:
+    // the stamps of what is stored and of what is expected then differ by that much more
+    let gap = p.get("gap", 0);
     Program {
         setup: Some(body(move |c, w| {
             let hx = c.new_node(1);
@@ -683,6 +687,9 @@ fn cell(p: &Params) -> Program {
                 }
             };
             let cellr = &w.roots[0];
+            for _ in 0..gap {
+                cv::try_advance();
+            }
             let g: TG = c.pin();
             let mut model: MV = (0, 0);
             let mut last: Option<TS> = None;
@@ -870,6 +877,7 @@ fn wcell(p: &Params) -> Program {
         .into_iter()
         .map(|i| wcell_alphabet()[i])
         .collect();
+    let gap = p.get("gap", 0);
     Program {
         setup: Some(body(move |c, w| {
             let hx = c.new_node(1);
@@ -920,6 +928,9 @@ fn wcell(p: &Params) -> Program {
                 }
             };
             let cellr = &w.wroots[0];
+            for _ in 0..gap {
+                cv::try_advance();
+            }
             let g: TG = c.pin();
             let mut model: MV = (0, 0);
             let mut last: Option<TWS> = None;
@@ -1585,6 +1596,91 @@ fn conv(p: &Params) -> Program {
                 release_originals(c, hx, hy);
                 c.rounds(r2);
                 release_produced(c, produced);
+            }
+            c.rounds(4);
+        })),
+        ..base(p)
+    }
+}
+
+// ------------------------------------------------------------------------ C06, busy holders
+
+/// A comb whose every side leaf is held from outside by a holder that keeps using it (clones and
+/// releases a reference in every round, which re-stamps the leaf): the spine is unreferenced and
+/// must still go in a constant number of epochs, whatever the stamps of the leaves next to it.
+/// case -> (n of spine nodes, which slot carries the spine, link construction)
+pub const BUSY_NS: [usize; 5] = [2, 5, 12, 33, 80];
+pub fn latency_busy_cases() -> i64 {
+    (BUSY_NS.len() * 2 * 2) as i64
+}
+
+fn latency_busy(p: &Params) -> Program {
+    let mut k = p.get("case", 0) as usize;
+    let spine_slot = k % 2;
+    k /= 2;
+    let from = k % 2 == 1;
+    k /= 2;
+    let n = BUSY_NS[k % BUSY_NS.len()];
+    let age = p.get("age", 4) as usize;
+    Program {
+        setup: Some(body(move |c, _w| {
+            let g = c.pin();
+            let mut leaves: Vec<Rc<Node>> = vec![];
+            let mut next: Option<Rc<Node>> = None;
+            for i in (0..n).rev() {
+                let leaf = c.new_node(1000 + i as u32);
+                leaves.push(c.clone_rc(&leaf));
+                let (a, b) = if spine_slot == 1 { (Some(leaf), next.take()) } else { (next.take(), Some(leaf)) };
+                let nd = if from {
+                    c.new_node_with(i as u32 + 1, a, b, None, 0b11)
+                } else {
+                    let nd = c.new_node(i as u32 + 1);
+                    if let Some(r) = a {
+                        c.store(&c.node(&nd).next[0], r, &g);
+                    }
+                    if let Some(r) = b {
+                        c.store(&c.node(&nd).next[1], r, &g);
+                    }
+                    nd
+                };
+                next = Some(nd);
+            }
+            c.unpin(g);
+            c.rounds(age);
+            let touch = |c: &Ctx| {
+                for l in leaves.iter() {
+                    let t = c.clone_rc(l);
+                    c.drop_rc(t);
+                }
+            };
+            touch(c);
+            let before = mon().destructs;
+            c.drop_rc(next.take().unwrap());
+            let bound = latency_bound(n);
+            let mut used = 0usize;
+            while mon().destructs < before + n as u64 {
+                if used > bound {
+                    let done = mon().destructs - before;
+                    mon().violate(
+                        "C06",
+                        "too-many-grace-periods",
+                        format!("comb with busy held leaves: only {} of {} spine nodes destructed {} epochs after the drop (bound {})", done, n, used, bound),
+                    );
+                    break;
+                }
+                touch(c);
+                c.round();
+                used += 1;
+            }
+            mon().mix_outcome(0x6200 ^ used as u64);
+            if mon().destructs > before + n as u64 {
+                mon().violate("C06", "held-node-destructed", "a leaf that is held from outside was destructed".into());
+            }
+            for l in leaves.iter() {
+                c.deref(l);
+            }
+            for l in leaves.drain(..) {
+                c.drop_rc(l);
             }
             c.rounds(4);
         })),
